@@ -476,6 +476,34 @@ def every_context_refreshed(ctx):
     ctx.check(not da, "context-refresh:every-context-visited", "at_most_once (iterator advance per iteration)", orf.loc(da[0][0]) if da else orf.loc(),
               "every cached context is visited: the iterator advances once per iteration (erase() already yields the next element)",
               (da[0][1] if da else "") + " - the cached cgroup after a removed one is not refreshed on that tick and keeps serving last tick's values and identity")
+    # ... and a context whose own refresh() said 'this cgroup is gone' is dropped in that iteration, whatever a second opinion (a lookup
+    # by PATH) says: the context is addressed by its directory handle, and a cgroup re-created under the same name is a different
+    # cgroup - the stale entry would answer every read with 'unavailable' (0 for the detectors) for as long as the new cgroup lives.
+    ls_ = [l for l in loops(orf) if l["stmt"] is not None]
+    er_ = [i for i in orf.calls("erase") if "recv" in orf.nodes[i] and orf.text(orf.nodes[i]["recv"]).endswith("cgroups_") and orf.pos_of(i) is not None]
+    if len(ls_) == 1 and er_:
+        INV = lambda k: isinstance(k, str) and re.search(r"(\.|->)refresh\(\)$", k) is not None
+        f0_ = Flow(P, orf, cg=cg)
+        starts = [blk["succ"][j_] for blk in orf.cfg for j_ in range(len(blk["succ"])) if isinstance(blk["succ"][j_], int)
+                  and any(INV(k) and p_ is False for k, p_ in f0_.edge_facts(blk["id"], j_))]
+        kept = not starts
+        for st0 in starts:
+            # everything reachable from the 'refresh() said false' edge within this iteration passes the erase
+            fi_ = Flow(P, orf, events={i: [("set", "erased")] for i in er_}, start=st0, cut=set(ls_[0]["back_edges"]), cg=cg)
+            for b_ in back_sources(ls_[0]):
+                for st_ in (fi_.OUT.get(b_) or {}).values():
+                    if "erased" not in st_.must:
+                        kept = True
+            for e_ in fi_.exits():
+                if e_[0] in ("return", "fallthrough") and not all("erased" in st_.must for st_ in e_[3].values()):
+                    kept = True
+        ctx.check(not kept, "context-refresh:invalid-context-is-dropped", "per-iteration must_follow (passed edge)", orf.loc(ls_[0]["stmt"]),
+                  "an iteration in which CgroupContext::refresh() returned false erases that context",
+                  "OomdContext::refresh can finish an iteration in which the context's own refresh() reported the cgroup gone WITHOUT erasing it (a second test keeps "
+                  "it): the entry keeps its dead directory handle, addToCacheAndGet keeps returning it, and a cgroup re-created under that name reads as "
+                  "'statistic unavailable' on every later tick")
+    else:
+        ctx.broken("context-refresh:invalid-context-is-dropped", "anchor", orf.loc(), "expected one loop with an erase on cgroups_ in OomdContext::refresh")
 
 
 def memory_protection_scheme(ctx):
